@@ -55,7 +55,7 @@ func randomiseConfig(r *rand.Rand, sp *saml2.SAMLServiceProvider, o *OutCfg) {
 	sp.ForceAuthn = r.IntN(2) == 0
 	sp.IsPassive = r.IntN(2) == 0
 	if r.IntN(2) == 0 {
-		rac := &saml2.RequestedAuthnContext{Comparison: o.draw(r, saml2.AuthnPolicyMatchExact, true)}
+		rac := &saml2.RequestedAuthnContext{Comparison: o.draw(r, pick(r, []string{saml2.AuthnPolicyMatchExact, saml2.AuthnPolicyMatchMinimum, saml2.AuthnPolicyMatchMaximum, saml2.AuthnPolicyMatchBetter}), true)}
 		for i := r.IntN(5); i > 0; i-- {
 			rac.Contexts = append(rac.Contexts, o.draw(r, saml2.AuthnContextPasswordProtectedTransport, false))
 		}
@@ -66,7 +66,10 @@ func randomiseConfig(r *rand.Rand, sp *saml2.SAMLServiceProvider, o *OutCfg) {
 var outKinds = []string{"authn-doc", "authn-string", "logoutreq", "logoutresp", "sign-authn", "sign-logoutreq", "sign-logoutresp"}
 
 // OutArgs are the caller-supplied arguments of the logout builders.
-type OutArgs struct{ NameID, SessionIndex, Status, ReqID string }
+type OutArgs struct {
+	NameID, SessionIndex, Status, ReqID string
+	Reuse                               bool // pass the built document through the binding helpers before serialising it
+}
 
 // buildSigned produces the serialised signed message of the given kind.
 func buildSigned(sp *saml2.SAMLServiceProvider, kind string, a OutArgs) (string, error) {
@@ -112,6 +115,21 @@ func buildSigned(sp *saml2.SAMLServiceProvider, kind string, a OutArgs) (string,
 	if err != nil {
 		return "", err
 	}
+	if a.Reuse {
+		// the application hands the same signed document to the binding helpers (URL for one IdP, form for another)
+		// before serialising it itself: the document is still the signed message afterwards
+		switch kind {
+		case "authn-doc", "sign-authn":
+			sp.BuildAuthURLRedirect("rs", doc)
+			sp.BuildAuthBodyPostFromDocument("rs", doc)
+			sp.BuildAuthURLFromDocument("rs", doc)
+		case "logoutreq", "sign-logoutreq":
+			sp.BuildLogoutURLRedirect("rs", doc)
+			sp.BuildLogoutBodyPostFromDocument("rs", doc)
+		default:
+			sp.BuildLogoutResponseBodyPostFromDocument("rs", doc)
+		}
+	}
 	return doc.WriteToString()
 }
 
@@ -151,7 +169,8 @@ func runC13(c *mon.Ctx) {
 			randomiseConfig(r, sp, o)
 		}
 		args := OutArgs{NameID: o.draw(r, "user@example.org", false), SessionIndex: o.draw(r, "_sess1", false), Status: o.draw(r, saml2.StatusCodeSuccess, true), ReqID: o.draw(r, "_req1", true)}
-		cs.Desc("keys=%s want=%s alg=%q canon=%s kind=%s classes=%v", kc, ksp.WantSign, alg.URI, cn.Name, kind, o.Classes)
+		args.Reuse = r.IntN(3) == 0
+		cs.Desc("keys=%s want=%s alg=%q canon=%s kind=%s classes=%v reuse=%v", kc, ksp.WantSign, alg.URI, cn.Name, kind, o.Classes, args.Reuse)
 		var xml string
 		var err error
 		pv, stack := mon.Guard(func() { xml, err = buildSigned(sp, kind, args) })
